@@ -38,12 +38,18 @@ def cases(code):
                                        "dirs3"]))
         pix = "uint8" if layout == "rgb" else draw(
             st.sampled_from(["uint8", "uint16"]))
+        out = draw(st.sampled_from(TARGETS[pix]))
+        block = None
+        if out in ("uint32", "uint64") and draw(st.booleans()):
+            # label slices stored with the compressed_segmentation encoding
+            block = draw(st.sampled_from([[8, 8, 8], [2, 2, 2], [1, 2, 3],
+                                          [2, 1, 2]]))
         return {
             "code": code,
             "n": [draw(st.integers(1, 7)) for _ in range(3)],
             "chunk": [draw(st.integers(1, 4)) for _ in range(3)],
             "layout": layout, "pix": pix,
-            "out": draw(st.sampled_from(TARGETS[pix])),
+            "out": out, "block": block,
             "acc": draw(st.sampled_from(["deep_gz", "flat", "deep",
                                          "flat_gz"])),
             "cli": draw(st.booleans()),
@@ -89,8 +95,13 @@ def check_case(ctx, case):
                     PIL.Image.fromarray(stack[c, s]).save(
                         os.path.join(p, "s%03d.png" % s))
         size = orient_ref.output_size(code, ncol, nrow, nsl)
-        info = ds.make_info(case["out"], nch, [ds.make_scale(
-            "1um", size, case["chunk"], "raw")])
+        block = case.get("block")
+        scale = ds.make_scale("1um", size, case["chunk"],
+                              "compressed_segmentation" if block else "raw")
+        if block:
+            scale["compressed_segmentation_block_size"] = list(block)
+        info = ds.make_info(case["out"], nch, [scale],
+                            "segmentation" if block else "image")
         dest = os.path.join(d, "out")
         os.makedirs(dest)
         with open(os.path.join(dest, "info"), "w") as f:
@@ -134,6 +145,9 @@ def check_case(ctx, case):
                          code, type(exc).__name__, exc, case["n"],
                          case["chunk"]))
         X, Y, Z = size
+        hi_out = None
+        if np.dtype(case["out"]).kind == "u":
+            hi_out = int(np.iinfo(case["out"]).max)
         for c in range(nch):
             for z in range(Z):
                 for y in range(Y):
@@ -141,6 +155,10 @@ def check_case(ctx, case):
                         q, r, s = orient_ref.source_index(code, ncol, nrow,
                                                           nsl, x, y, z)
                         want = stack[c, s, r, q]
+                        if hi_out is not None and want > hi_out:
+                            # narrowing target (only generated by the C11
+                            # sub-check "slices"): saturation, never wrap
+                            want = np.dtype(case["out"]).type(hi_out)
                         if got[c, z, y, x] != want:
                             ctx.fail("orientation %s: output voxel (x,y,z)="
                                      "(%d,%d,%d) channel %d holds %r, the "
@@ -194,7 +212,9 @@ def run(ctx, n):
                                   "pix." + case["pix"],
                                   "reversed_slices" if case["code"][2] in "LPI"
                                   else "forward_slices",
-                                  "cli" if case["cli"] else "api"])
+                                  "cli" if case["cli"] else "api",
+                                  "enc.cseg" if case.get("block") else
+                                  "enc.raw"])
         ctx.run_hypothesis(cases(code), check, per)
 
 
